@@ -371,6 +371,15 @@ def pinned_cases():
             out.append({"tree": t6, "cwd": [], "tags": ["pinned:hidden-file-pattern"],
                         "args": {"artifacts": arts, "exclude_patterns": ex, "base_path": None,
                                  "follow": False, "normalize": False, "lstrip": None}})
+    # linked directories met during a walk whose target's path is a STRING prefix of the walking directory's path
+    # (lib / lib64, src / src-gen): they are ordinary links, not loops, and are followed when asked
+    t7 = d(("lib", d(("a.so", f("a")))), ("lib64", d(("compat", ["l", "../lib"]), ("b.so", f("b")))),
+           ("src", d(("m.c", f("m")))), ("src-gen", d(("up", ["l", "../src"]), ("deep", d(("again", ["l", "../../src"]))))))
+    for fl in (False, True):
+        for arts in ([".",], ["lib64"], ["src-gen", "lib"], ["dir:lib64", "dir:src-gen"]):
+            out.append({"tree": t7, "cwd": [], "tags": ["pinned:prefix-named-link-target"],
+                        "args": {"artifacts": arts, "exclude_patterns": None, "base_path": None,
+                                 "follow": fl, "normalize": False, "lstrip": None}})
     # ostree + file + dir merged
     h = "ab" + "c" * 62
     t4 = d(("refs", d(("heads", d(("main", f(h + "\n")))))), ("objects", d(("ab", d(("c" * 62 + ".commit", f("blob")))))),
@@ -598,12 +607,64 @@ def stats(recs):
     return st
 
 
+def resolver_reuse(ctx):
+    """one configured resolver object asked twice, the files edited in between: every answer is the SHA-256 of the
+    content AT THAT MOMENT (the public in_toto.resolver API; record_artifacts_as_dict builds fresh objects).
+    -> (cases, problems)"""
+    import shutil
+    from in_toto.resolver import DirectoryResolver, FileResolver, OSTreeResolver
+    wd = os.path.join(ctx.work, "c10reuse")
+    shutil.rmtree(wd, ignore_errors=True)
+    os.makedirs(os.path.join(wd, "src"))
+    sha = lambda b: hashlib.sha256(b).hexdigest()
+    files = {"README": b"one\n", "src/main.c": b"int main;\n", "src/crlf.txt": b"a\r\nb\r\n"}
+
+    def write():
+        for k, v in files.items():
+            with open(os.path.join(wd, k), "wb") as fh:
+                fh.write(v)
+    problems, n = [], 0
+    home = os.getcwd()
+    os.chdir(wd)
+    try:
+        for label, res, uris, want in (
+                ("FileResolver", FileResolver(), ["README", "src"],
+                 lambda: {k: {"sha256": sha(v)} for k, v in files.items()}),
+                ("FileResolver(normalize_line_endings)", FileResolver(normalize_line_endings=True), ["src/crlf.txt"],
+                 lambda: {"src/crlf.txt": {"sha256": sha(files["src/crlf.txt"].replace(b"\r\n", b"\n").replace(b"\r", b"\n"))}}),
+                ("DirectoryResolver", DirectoryResolver(), ["dir:src"],
+                 lambda: {"dir:src": {"sha256": sha("".join("%s  %s\n" % (sha(files["src/" + k]), k) for k in sorted(["crlf.txt", "main.c"])).encode())}})):
+            files.update({"README": b"one\n", "src/main.c": b"int main;\n", "src/crlf.txt": b"a\r\nb\r\n"})
+            write()
+            for rnd, edit in enumerate((None, {"README": b"two\n", "src/main.c": b"int main2;\n", "src/crlf.txt": b"c\r\n"},
+                                        {"README": b"one\n", "src/main.c": b"x", "src/crlf.txt": b"a\r\nb\r\n"})):
+                if edit:
+                    files.update(edit)
+                    write()
+                n += 1
+                try:
+                    got = res.hash_artifacts(list(uris))
+                except Exception as e:  # noqa
+                    problems.append("%s, call %d: raised %s" % (label, rnd + 1, type(e).__name__))
+                    continue
+                if got != want():
+                    stale = sorted(k for k in got if got.get(k) != want().get(k))
+                    problems.append("%s, call %d on the same object after the files were edited: %s do(es) not carry the digest of "
+                                    "the current content" % (label, rnd + 1, stale))
+    finally:
+        os.chdir(home)
+    return n, problems
+
+
 def run(ctx):
     n = 2500 if ctx.thorough() else 500
     if os.path.exists(core.COQ + "/Props/C10.v"):
         core.check_props(ctx, ["Props/C10.v"])
     else:
         ctx.notes.append("Props/C10.v pending")
+    reuse_n, reuse_bad = resolver_reuse(ctx)
+    for pr in reuse_bad[:3]:
+        ctx.violation("resolver object asked again after an edit: " + pr, {"kind": "resolver_reuse", "what": pr})
     cases = pinned_cases() + [gen_case(ctx.rng) for _ in range(n)]
     recs, model = run_cases(ctx, cases)
     kn, kok, kdetail = core.kernel_sample(ctx, model, limit_chars=24000, max_cases=40)
@@ -683,6 +744,15 @@ def run(ctx):
 
 def replay(ctx, obj):
     rp = obj["replay"]
+    if rp.get("kind") == "resolver_reuse":
+        _, bad = resolver_reuse(ctx)
+        for pr in bad:
+            print("  -> " + pr)
+        if bad:
+            print("VIOLATION property=C10 replay=%s" % obj.get("rerun", "").split()[-1])
+            return 1
+        print("agree")
+        return 0
     if "string_case" in rp:
         print(json.dumps(rp, indent=1)[:1500])
         return 1
